@@ -159,6 +159,20 @@ pub fn record(seed: u64, thorough: bool, wd: &crate::rec_more::Watchdog) -> (Vec
         p.settings["chordal_decomposition_merge_method"] = json!(merge);
         p.settings["chordal_decomposition_compact"] = json!(k % 2 == 0);
         p.settings["chordal_decomposition_complete_dual"] = json!(true);
+        // now and then the last row / column of a PSD cone carries no data at all, not even on the diagonal (the analysis puts
+        // the diagonal into the pattern itself)
+        if k % 4 == 1 {
+            let mut a = p.A.to_dense();
+            let mut off = 0;
+            for c in &p.cones {
+                if let crate::problem::ConeSpec::Psd(d) = c {
+                    let d = *d;
+                    for i in 0..d { let r = off + d * (d - 1) / 2 + i; for v in a[r].iter_mut() { *v = 0.0; } p.b[r] = 0.0; }
+                }
+                off += c.numel();
+            }
+            p.A = crate::problem::Csc::from_dense(&a, p.m(), p.n());
+        }
         let ev = json!({"ev": "Building", "id": id, "merge": merge, "cones": serde_json::to_value(&p.cones).unwrap()});
         wd.tick(&ev);
         let res = catch_unwind(AssertUnwindSafe(|| {
